@@ -388,6 +388,8 @@ def apply_op(op, y, ctx):
         if ctx.lib == "np":
             return y
         c = op["c"]
+        if isinstance(c, list):  # explicit chunks: flat for one axis, nested for all axes
+            c = tuple(tuple(v) if isinstance(v, list) else v for v in c)
         return y.rechunk(c if ax is None else {ax: c})
     if n == "ravel":
         return y.ravel()
@@ -524,47 +526,57 @@ def _style_chunks(n, style):
     return (c,) * (n // c) + ((n % c,) if n % c else ())
 
 
-def _two_zero_run(c):
-    return any(c[i] == 0 and c[i + 1] == 0 for i in range(len(c) - 1))
+def _inner_zero_before_nonempty(c):
+    """A zero-length chunk that is not the first one and is followed by a non-empty chunk (e.g. (1, 0, 1), (0, 0, 2))."""
+    return any(c[i] == 0 and c[i + 1] > 0 for i in range(1, len(c) - 1))
 
 
 def own_region(case, a_true, resolved, unk, partner_resolved=None):
-    """Id of the finding OF THIS ENGINE in whose region the follow-on lies, else None.
+    """Ids of the findings OF THIS ENGINE in whose regions the follow-on lies (possibly several, possibly none).
 
-    All but the last live on arrays that compute_chunk_sizes gave a zero-length chunk (the engine's core domain) and
-    reproduce on da.from_array(..., chunks=<the same chunks>).
+    The KF-zero-chunk-* / KF-boolmask-* / KF-rechunk-* ones live on arrays that compute_chunk_sizes gave a zero-length
+    chunk (the engine's core domain) and reproduce on da.from_array(..., chunks=<the same chunks>); the KF-unknown-*
+    ones are wrong results of operations on arrays whose sizes are still unknown.
     """
     op = case["op"]
     n, ax = op["name"], op.get("axis")
     empty = _has_empty_block(resolved)
+    ids = []
     if n in ("ravel", "reshape") and empty:
-        return "KF-zero-chunk-reshape"
+        ids.append("KF-zero-chunk-reshape")
     if n == "mask_again":
         if a_true.ndim >= 2 and empty:
-            return "KF-zero-chunk-reshape"  # the resolved >=2-d array is ravelled first
+            ids.append("KF-zero-chunk-reshape")  # the resolved >=2-d array is ravelled first
         if any(sum(c) == 1 and len(c) > 1 for c in resolved):
-            return "KF-boolmask-len1-multiblock"
+            ids.append("KF-boolmask-len1-multiblock")
+        if unk and a_true.ndim >= 2:
+            # documented by a warning in slice_with_bool_dask_array: block-wise order instead of C order
+            ids.append("KF-unknown-nd-boolmask-order")
     if n == "repeat" and 0 in resolved[ax]:
-        return "KF-zero-chunk-repeat"
+        ids.append("KF-zero-chunk-repeat")
     if n == "argmax" and a_true.size and any(0 in c for c in resolved):
-        return "KF-zero-chunk-argreduce"
+        ids.append("KF-zero-chunk-argreduce")
     if n == "max" and a_true.size and a_true.ndim >= 2 and any(0 in c for c in resolved):
-        return "KF-zero-chunk-minmax"
-    if (n == "flip" or (n == "slice" and (op["s"][2] or 1) < 0)) and _two_zero_run(resolved[ax]):
-        return "KF-zero-chunk-negstep"
+        ids.append("KF-zero-chunk-minmax")
+    if (n == "flip" or (n == "slice" and (op["s"][2] or 1) < 0)) and _inner_zero_before_nonempty(resolved[ax]):
+        ids.append("KF-zero-chunk-negstep")
     if n == "rechunk" and op["c"] == "auto" and a_true.size == 0:
-        return "KF-rechunk-auto-zero-size"
-    # elemwise of an array with unknown sizes and one whose blocks along that axis are equally many but differently sized
+        ids.append("KF-rechunk-auto-zero-size")
+    # elemwise of an array with unknown sizes and a known one: the known operand is not re-chunked at all (neither along
+    # the unknown axis, where blocks are paired by position, nor along the known axes) when the block counts agree
     if n in ("add_known", "add_bcast") and op.get("kstyle", "single") != "resolved":
         nd = len(resolved)
-        for d in (range(nd) if n == "add_known" else [nd - 1]):
-            if d in unk:
-                kc = _style_chunks(sum(resolved[d]), op.get("kstyle", "single"))
-                if len(kc) == len(resolved[d]) and tuple(kc) != tuple(resolved[d]):
-                    return "KF-unknown-elemwise-positional-blocks"
+        axes = list(range(nd)) if n == "add_known" else [nd - 1]
+        if any(d in unk for d in axes):
+            kcs = {d: _style_chunks(sum(resolved[d]), op.get("kstyle", "single")) for d in axes}
+            if all(len(kcs[d]) == len(resolved[d]) for d in axes if d in unk) and any(tuple(kcs[d]) != tuple(resolved[d]) for d in axes):
+                ids.append("KF-unknown-elemwise-positional-blocks")
     if n == "add_mirror" and unk and partner_resolved is not None and tuple(partner_resolved) != tuple(resolved):
-        return "KF-unknown-elemwise-positional-blocks"
-    return None
+        ids.append("KF-unknown-elemwise-positional-blocks")
+    # concatenate drops zero-size operands while the unknown operand's size (NaN) counts as non-zero
+    if n == "concat" and op["other"] == "known" and unk and op["olen"] > 0 and any(s == 0 for d, s in enumerate(a_true.shape) if d != ax):
+        ids.append("KF-unknown-concat-drops-zero-size")
+    return ids
 
 
 OWN_IDS = (
@@ -576,6 +588,8 @@ OWN_IDS = (
     "KF-zero-chunk-negstep",
     "KF-rechunk-auto-zero-size",
     "KF-unknown-elemwise-positional-blocks",
+    "KF-unknown-concat-drops-zero-size",
+    "KF-unknown-nd-boolmask-order",
 )
 
 
@@ -595,7 +609,7 @@ def _region_pred(fid):
                 m = da_produce(case, "mirror")
                 m.compute_chunk_sizes()
                 pres = _tt(m.chunks)
-            return own_region(case, a_true, _tt(y.chunks), unk, pres) == fid
+            return fid in own_region(case, a_true, _tt(y.chunks), unk, pres)
 
     return pred
 
@@ -665,6 +679,38 @@ def validate(case):
             assert sum(p["cchunks"]) == p["clen"] and len(p["cchunks"]) >= 1 and all(v >= 0 for v in p["cchunks"])
 
 
+def validate_op(op, ts):
+    """Follow-on parameters that NumPy's twin cannot reject by itself."""
+    nd = len(ts)
+    ax = op.get("axis", None)
+    if op["name"] == "stack":
+        assert ax in (0, nd)
+    elif ax is not None:
+        assert isinstance(ax, int) and 0 <= ax < nd
+    elif op["name"] in ("slice", "int", "intlist", "take", "concat", "topk", "cumsum", "diff", "argmax", "tensordot", "flip", "repeat"):
+        raise AssertionError("axis required")
+    if op["name"] == "rechunk":
+        c = op["c"]
+        if isinstance(c, list):
+            if ax is None:
+                assert len(c) == nd and all(isinstance(v, list) and len(v) >= 1 and all(isinstance(k, int) and k >= 0 for k in v) and sum(v) == n for v, n in zip(c, ts))
+                assert all(n == 0 or 0 not in v for v, n in zip(c, ts))
+            else:
+                assert len(c) >= 1 and all(isinstance(k, int) and k >= 0 for k in c) and sum(c) == ts[ax] and (ts[ax] == 0 or 0 not in c)
+        else:
+            assert c == "auto" or (isinstance(c, int) and (c == -1 or c >= 1))
+    if op["name"] == "repeat":
+        assert isinstance(op.get("r", 2), int) and 0 <= op.get("r", 2) <= 4
+    if op["name"] == "topk":
+        assert isinstance(op["k"], int) and op["k"] != 0
+    if op["name"] == "concat":
+        assert 0 <= op["olen"] <= 4
+    if op["name"] == "transpose" and op.get("perm") is not None:
+        assert sorted(op["perm"]) == list(range(nd))
+    if "kstyle" in op:
+        assert op["kstyle"] in ("single", "resolved", "ones") or (isinstance(op["kstyle"], int) and op["kstyle"] >= 1)
+
+
 def _compare(got, exp, allow_nan=False):
     """None or (kind, text). got/exp: arrays, ints or shape tuples."""
     if isinstance(exp, tuple):
@@ -706,7 +752,7 @@ def run_case(case, steering=True):
 
     validate(case)
     p, op = case["prod"], case["op"]
-    labs = ["prod:" + p["name"]]
+    labs = ["prod:" + p["name"], "gen-op:" + op["name"]]
     skip = open_ids() if steering else frozenset()
     fid = steer(case, None, None)
     if fid in skip:
@@ -719,6 +765,7 @@ def run_case(case, steering=True):
             a_part = np_produce(case, pvariant) if pvariant else None
         except Exception as e:
             raise AssertionError(f"invalid producer for NumPy: {type(e).__name__}: {e}")
+        validate_op(op, a_true.shape)
         # ---- oracle 1: resolve
         fails = []
         try:
@@ -803,21 +850,21 @@ def run_case(case, steering=True):
             partA = da_produce(case, pvariant)
             partB = da_produce(case, pvariant)
             partB.compute_chunk_sizes()
-        fid = own_region(case, a_true, resolved, unk, _tt(partB.chunks) if partB is not None else None)
-        if fid in skip:
-            return labs, [], fid, nontrivial
+        for fid in own_region(case, a_true, resolved, unk, _tt(partB.chunks) if partB is not None else None):
+            if fid in skip:
+                return labs, [], fid, nontrivial
         labs.append("op:" + opl)
         # (A) sizes unknown
         if unk:
             st_, val, adv = _run_op(op, yA, Ctx("da", partA, resolved, a_true.shape, -1))
             if st_ != "ok":
-                labs += ["A-raises:" + opl, f"A-raises-at-{st_}", "A-raises-type:" + type(val).__name__]
+                labs += ["A-raises", "A-raises:" + opl, f"A-raises-at-{st_}", "A-raises-type:" + type(val).__name__]
             else:
                 why = _compare(val, exp, allow_nan=True)
                 if why:
                     fails.append((f"before-resolve|{opl}|{why[0]}", f"{why[1]}\n advertised chunks of the result: {adv}"))
                 else:
-                    labs.append("A-ok:" + opl)
+                    labs += ["A-ok", "A-ok:" + opl]
                     if op["name"] in ("shape", "size") and (_isnan(val) or (isinstance(val, tuple) and any(_isnan(v) for v in val))):
                         labs.append("A-nan:" + opl)
         else:
@@ -835,7 +882,7 @@ def run_case(case, steering=True):
             if why:
                 bfail = (f"after-resolve|{opl}|{why[0]}", f"{why[1]}\n resolved chunks {resolved}; advertised chunks of the result: {adv}")
             else:
-                labs.append("B-ok:" + opl)
+                labs += ["B-ok", "B-ok:" + opl]
         if bfail is not None:
             # control: the same follow-on on a plain from_array with the resolved chunks
             try:
@@ -924,16 +971,16 @@ def gen_producer(D_, shape, chunks):
         [
             ("mask_dask", 6),
             ("mask_np", 2),
-            ("rowmask", 5),
+            ("rowmask", 7),
             ("nonzero", 2),
             ("where1", 2),
-            ("argwhere", 2),
+            ("argwhere", 3),
             ("flatnonzero", 2),
             ("unique", 1),
             ("unique_counts", 1),
             ("unique_inverse", 1),
             ("unique_index", 1),
-            ("compress", 4),
+            ("compress", 5),
             ("extract", 2),
         ]
     )
@@ -985,7 +1032,7 @@ def gen_op(D_, ts, unk):
         if not cands:
             return None
         u = [d for d in cands if d in unk]
-        if u and D_.chance(2, 3):
+        if u and D_.chance(1, 2):
             return D_.choice(u)
         return D_.choice(cands)
 
@@ -1057,7 +1104,11 @@ def gen_op(D_, ts, unk):
         op.update(axis=ax, l=gidx.gen_int_list(D_, ts[ax], 1, 4))
     elif name == "rechunk":
         ax = pick_axis() if D_.chance(4, 5) else None
-        op.update(axis=ax, c=D_.choice([-1, 1, 2, 3, "auto"]))
+        if D_.chance(2, 5):  # explicit chunk tuples that add up to the true lengths
+            c = list(gchunks.axis_chunks(D_, ts[ax])) if ax is not None else [list(gchunks.axis_chunks(D_, n)) for n in ts]
+        else:
+            c = D_.choice([-1, 1, 2, 3, "auto"])
+        op.update(axis=ax, c=c)
     elif name == "reshape":
         form = D_.weighted([("flat", 2), ("expand", 2), ("merge", 2 if nd >= 2 else 0), ("split1", 1)])
         if form == "flat":
@@ -1151,6 +1202,22 @@ def run_shard(spec, seed):
 
 
 def shrink(case):
+    """Candidates of ``_shrink_raw`` that are well-formed and stay outside the regions of findings other engines list
+    (a C28 failure must not be minimised into, say, the zero-size reshape defect that shares its bucket text)."""
+    for cand in _shrink_raw(case):
+        try:
+            validate(cand)
+            with warnings.catch_warnings():
+                warnings.simplefilter("ignore")
+                a = np_produce(cand)
+            if steer(cand, None, None) or steer(cand, a, None):
+                continue
+        except Exception:
+            continue
+        yield cand
+
+
+def _shrink_raw(case):
     """Structure-aware candidates first (keep shape/chunks consistent), then the generic JSON ones."""
     import json
 
@@ -1208,14 +1275,17 @@ def _fix_aux(c, ax):
 
 
 def plan(tier):
-    return progrun.plan_cases(tier, 6400, 96000)
+    return progrun.plan_cases(tier, 9600, 150000)
 
 
+# Required classes describe what the GENERATOR reaches (every producer, every follow-on, empty blocks) plus the
+# aggregate raise/succeed split and a few per-op classes that a removed guard cannot empty (a defect that turns every
+# "raises" of one operation into a wrong result must surface as a VIOLATION, not as a missing class).
 _REQ = (
     ["prod:" + n for n in PRODUCERS]
+    + ["gen-op:" + n for n in OPS]
     + ["empty-block", "all-selected-block", "resolved", "nontrivial", "model", "unknown-axis>=3-blocks"]
-    + ["A-ok:add_scalar", "A-ok:sum-all", "A-ok:map_blocks", "A-ok:rechunk@known", "A-ok:concat-self@unk", "A-ok:transpose"]
-    + ["A-raises:slice-unit@unk", "A-raises:rechunk@unk", "A-raises:len", "A-raises:int@unk", "A-raises:store", "A-raises-at-build"]
-    + ["B-ok:slice-unit@unk", "B-ok:rechunk@unk", "B-ok:store", "B-ok:len", "B-ok:add_same"]
+    + ["A-ok", "A-raises", "A-raises-at-build", "B-ok"]
+    + ["A-ok:add_scalar", "A-ok:sum-all", "A-ok:map_blocks", "A-ok:concat-self@unk"]
 )
 REQUIRED_CLASSES = {"quick": list(_REQ), "thorough": list(_REQ)}
